@@ -1106,6 +1106,11 @@ SUMMARIES = {
     'std::time::Duration::from_secs_f64': un_val('dur_from_secs_f64'),
     'std::time::SystemTime::elapsed': un_ref('systime_elapsed'),
     'std::time::Instant::elapsed': un_ref('instant_elapsed'),
+    # `Instant::now() - t` / `Instant::now().duration_since(t)` is what `t.elapsed()` computes
+    '<std::time::Instant as std::ops::Sub>::sub': lambda e, s, f, a, fn, site: (
+        T('instant_elapsed', a[1]) if (a[0][0] == 't' and a[0][1] == 'call' and a[0][2][0].endswith('Instant::now')) else None),
+    'std::time::Instant::duration_since': lambda e, s, f, a, fn, site: (
+        T('instant_elapsed', a[1]) if (deref(e, s, a[0])[0] == 't' and deref(e, s, a[0])[1] == 'call' and deref(e, s, a[0])[2][0].endswith('Instant::now')) else None),
     'std::time::Instant::checked_sub': lambda e, s, f, a, fn, site: T('instant_checked_sub', deref(e, s, a[0]), a[1]),
     'std::sync::atomic::Atomic::<u32>::into_inner': into_inner,
 }
